@@ -32,13 +32,18 @@ pub struct TState {
     /// scheduled config mutations: (after this many generation/config reads, new bytes, bump generation)
     pub cfg_schedule: Vec<(usize, Vec<u8>, bool)>,
     pub cfg_accesses: usize,
+    /// a device whose reset completes late: after a write of 0 the next `slow_reset` reads of the status still
+    /// return the value it had before (VirtIO 1.2 4.1.4.3.2 lets the driver poll for 0)
+    pub slow_reset: u32,
+    pub stale_status: u32,
+    pub stale_left: u32,
 }
 
 impl TState {
     pub fn new(device_type: DeviceType, features: u64, nqueues: usize, max_queue_size: u32) -> Self {
         TState { device_type, features, driver_features: 0, max_queue_size, legacy: false, pretend_used: false,
             status: 0, config: vec![], config_gen: 0, isr: 0, queues: vec![QInfo::default(); nqueues],
-            fail_config_read_at: None, config_reads: 0, on_notify: None, cfg_schedule: vec![], cfg_accesses: 0 }
+            fail_config_read_at: None, config_reads: 0, on_notify: None, cfg_schedule: vec![], cfg_accesses: 0, slow_reset: 0, stale_status: 0, stale_left: 0 }
     }
     fn cfg_tick(&mut self) {
         self.cfg_accesses += 1;
@@ -91,10 +96,15 @@ impl Transport for ModelTransport {
             if s.on_notify.is_none() { s.on_notify = Some(cb); }
         }
     }
-    fn get_status(&self) -> DeviceStatus { DeviceStatus::from_bits_retain(self.0.borrow().status) }
+    fn get_status(&self) -> DeviceStatus {
+        let mut s = self.0.borrow_mut();
+        if s.stale_left > 0 { s.stale_left -= 1; return DeviceStatus::from_bits_retain(s.stale_status); }
+        DeviceStatus::from_bits_retain(s.status)
+    }
     fn set_status(&mut self, status: DeviceStatus) {
         hal::push(Ev::SetStatus(status.bits()));
         let mut s = self.0.borrow_mut();
+        if status.bits() == 0 && s.slow_reset > 0 { s.stale_status = s.status; s.stale_left = s.slow_reset; }
         s.status = status.bits();
         if status.bits() == 0 { for q in s.queues.iter_mut() { q.set = false; } }
     }
